@@ -1,8 +1,11 @@
 #!/bin/sh
 # run every check of a tier and print one summary line each; exit status = number of non-zero exits
+# usage: tools/runall.sh [tier] [ids...]   (ids like 01 02 ...; default all)
 tier=${1:-quick}; bad=0
+[ $# -gt 0 ] && shift
+ids="${*:-01 02 03 04 05 06 07 08 09 10 11 12 13 14 15 16 17 18 19}"
 cd "$(dirname "$0")/.."
-for i in 01 02 03 04 05 06 07 08 09 10 11 12 13 14 15 16 17 18 19; do
+for i in $ids; do
   out=$(./check C$i --tier $tier 2>&1); rc=$?
   echo "$out" | grep -E "^C$i tier=" | sed "s/^/rc=$rc /"
   [ $rc -ne 0 ] && { bad=$((bad+1)); echo "$out" | grep -E 'VIOLATION|MACHINERY' | head -5; }
